@@ -15,8 +15,11 @@
    the configuration caps udpMaxPayloadSize at 1472). *)
 From Coq Require Import List ZArith Bool Lia.
 Require Import MTX.Lib.IntWrap MTX.Model.C23_RtpH264 MTX.Model.C23_RtpGlue.
+Require Import MTX.Model.C23_RtpH265 MTX.Model.C23_RtpAudio MTX.Model.C23_RtpGlueInst.
 Require Import MTX.Proofs.C23_RtpH264 MTX.Proofs.C23_RtpH264Seq MTX.Proofs.C23_RtpH264Rt MTX.Proofs.C23_RtpH264Rt2
                MTX.Proofs.C23_RtpGlue MTX.Proofs.C23_RtpGlue2.
+Require Import MTX.Proofs.C23_RtpH265 MTX.Proofs.C23_RtpH265Rt MTX.Proofs.C23_RtpAudio MTX.Proofs.C23_RtpGlueGen
+               MTX.Proofs.C23_RtpInst.
 Import ListNotations.
 Local Open Scope Z_scope.
 
@@ -196,6 +199,372 @@ Example C23_example_glue :
      | GOk g1 out =>
          has_enc g1 = true /\ g1.(g_off) = 4900 /\ map p_seq out = [11; 12] /\ map p_ts out = [8000; 8000]
          /\ map p_ssrc out = [9; 9]
+     | _ => False
+     end.
+Proof. vm_compute. repeat split; reflexivity. Qed.
+
+(* ====================================================================================================
+   Second part: more packetizers. For each of them the same four statements as for H.264 - size, round trip
+   (decoder clean afterwards), consecutive sequence numbers, timestamp law - first for the encoder/decoder pair
+   alone, then through the glue. The glue part is ONE generic development (Proofs/C23_RtpGlueGen.v: any
+   packetizer honouring the contract "sequence numbers + size under its precondition + timestamp law + round
+   trip") instantiated per format.
+   ==================================================================================================== *)
+
+(* ---- the generic glue theorems (any payload type P, any encoder honouring the contract) ---- *)
+
+(* rtpTimeOffset: unchanged once an encoder exists; at creation = oversized packet's timestamp - uint32(PTS) *)
+Theorem C23_glue_offset : forall (P : Type) (encode : enc -> P -> res (list packet * enc) + unit)
+    max avail g pts inp decerr deliv g' out,
+  glue_write P encode max avail g pts inp decerr deliv = GOk g' out -> has_enc g' = true ->
+  (has_enc g = true -> g'.(g_off) = g.(g_off))
+  /\ (has_enc g = false -> exists pkt, first_oversized max inp = Some pkt
+                                       /\ g'.(g_off) = wrapu32 (pkt.(p_ts) - wrapu32 pts)
+                                       /\ (0 <= pkt.(p_ts) < two32 -> wrapu32 (g'.(g_off) + wrapu32 pts) = pkt.(p_ts))).
+Proof. exact glue_offset. Qed.
+Print Assumptions C23_glue_offset.
+
+(* sequence numbers through the glue: consecutive (mod 2^16) from the effective encoder's next number (the
+   existing encoder's, or the first oversized packet's own number), one SSRC, and the encoder kept in the state
+   continues right after them - for every encoder whose calls satisfy enc_post0 *)
+Theorem C23_glue_seq_generic : forall (P : Type) (encode : enc -> P -> res (list packet * enc) + unit),
+  (forall e p pkts e', encode e p = inl (Ok (pkts, e')) -> enc_post0 e pkts e') ->
+  forall max avail g pts inp decerr deliv g' out,
+  glue_write P encode max avail g pts inp decerr deliv = GOk g' out -> has_enc g' = true ->
+  exists e0 off0 e1, effective max avail g pts inp e0 off0 /\ g' = mkg (Some e1) off0
+    /\ seq_chain e0.(e_seq) out /\ Forall (fun p => p.(p_ssrc) = e0.(e_ssrc)) out
+    /\ e1.(e_seq) = adv e0.(e_seq) (length out) /\ e1.(e_max) = e0.(e_max) /\ e1.(e_ssrc) = e0.(e_ssrc).
+Proof. exact glue_seq_gen. Qed.
+Print Assumptions C23_glue_seq_generic.
+
+(* size through the glue: lo = the encoder's lower bound on PayloadMaxSize, pre = its precondition on the unit *)
+Theorem C23_glue_size_generic : forall (P : Type) (encode : enc -> P -> res (list packet * enc) + unit),
+  (forall e p pkts e', encode e p = inl (Ok (pkts, e')) -> enc_post0 e pkts e') ->
+  forall (lo : Z) (pre : Z -> P -> Prop),
+  (forall e p pkts e', lo <= e.(e_max) -> pre e.(e_max) p -> encode e p = inl (Ok (pkts, e')) ->
+     Forall (fun q => blen q.(p_payload) <= e.(e_max)) pkts) ->
+  forall max avail g pts inp decerr deliv g' out,
+  lo <= max -> max <> 0 -> enc_max_ok max g -> Forall (fun p => 0 <= p.(p_seq) < 65536) inp ->
+  glue_write P encode max avail g pts inp decerr deliv = GOk g' out -> has_enc g' = true ->
+  (forall p, deliv = Some p -> pre max p) ->
+  Forall (fun p => blen p.(p_payload) <= max) out /\ enc_max_ok max g'.
+Proof. exact glue_size_gen. Qed.
+Print Assumptions C23_glue_size_generic.
+
+(* timestamps through the glue: Timestamp = (what the encoder set) + rtpTimeOffset + uint32(PTS) mod 2^32 *)
+Theorem C23_glue_ts_generic : forall (P : Type) (encode : enc -> P -> res (list packet * enc) + unit)
+    (tslaw : Z -> P -> list Z -> Prop),
+  (forall e p pkts e', encode e p = inl (Ok (pkts, e')) -> tslaw e.(e_max) p (map p_ts pkts)) ->
+  forall max avail g pts inp decerr p g' out,
+  max <> 0 -> enc_max_ok max g ->
+  glue_write P encode max avail g pts inp decerr (Some p) = GOk g' out -> has_enc g' = true ->
+  exists offs, tslaw max p offs
+    /\ map p_ts out = map (fun o => wrapu32 (o + wrapu32 (g'.(g_off) + wrapu32 pts))) offs.
+Proof. exact glue_ts_gen. Qed.
+Print Assumptions C23_glue_ts_generic.
+
+(* round trip through the glue, for any decoder (state D, run function, clean predicate) *)
+Theorem C23_glue_roundtrip_generic : forall (P : Type) (encode : enc -> P -> res (list packet * enc) + unit)
+    (lo : Z) (D : Type) (drun : D -> list packet -> list dout * D) (cleanD : D -> Prop) (hi : Z)
+    (okp : Z -> P -> Prop) (good : P -> list dout -> Prop),
+  (forall e p pkts e' d delta,
+     lo <= e.(e_max) < hi -> okp e.(e_max) p -> encode e p = inl (Ok (pkts, e')) -> cleanD d ->
+     good p (fst (drun d (map (stamp delta) pkts))) /\ cleanD (snd (drun d (map (stamp delta) pkts)))
+     /\ (1 <= length pkts)%nat) ->
+  forall max avail g pts inp decerr p g' out d,
+  lo <= max < hi -> max <> 0 -> enc_max_ok max g ->
+  glue_write P encode max avail g pts inp decerr (Some p) = GOk g' out -> has_enc g' = true ->
+  okp max p -> cleanD d ->
+  good p (fst (drun d out)) /\ cleanD (snd (drun d out)) /\ (1 <= length out)%nat.
+Proof. exact glue_roundtrip_gen. Qed.
+Print Assumptions C23_glue_roundtrip_generic.
+
+(* ---------------------------------------------------------------------------------------------------
+   H.265 (gortsplib rtph265: single NAL unit / aggregation packet type 48 / fragmentation unit type 49).
+   Preconditions are the encoder's own: PayloadMaxSize >= 4 (a fragmentation unit needs one byte of room; 3
+   divides by zero in Go) and every NAL unit has its two-byte header (the encoder returns "invalid NALU"
+   otherwise). nal5_ok n: two header bytes in 0..255, type not 48..50, no start code 00 00 01 inside. The
+   forbidden_zero_bit survives fragmentation here (unlike H.264). The decoder accepts at most 21 NAL units
+   and 8 MiB per access unit.
+   --------------------------------------------------------------------------------------------------- *)
+Theorem C23_h265_size : forall e au pkts e',
+  4 <= e.(e_max) -> h265_encode e au = inl (Ok (pkts, e')) ->
+  forall p, In p pkts -> blen p.(p_payload) <= e.(e_max).
+Proof. exact h265_encode_size. Qed.
+Print Assumptions C23_h265_size.
+
+Theorem C23_h265_encode_total : forall e au,
+  4 <= e.(e_max) -> Forall (fun n => 2 <= blen n) au -> exists pkts e', h265_encode e au = inl (Ok (pkts, e')).
+Proof. exact h265_encode_total. Qed.
+Print Assumptions C23_h265_encode_total.
+
+Theorem C23_h265_roundtrip : forall e au pkts e' d delta,
+  4 <= e.(e_max) < 65536 -> au <> [] -> Forall nal5_ok au ->
+  blen au <= max_nalus5 -> au_size au <= max_au_size5 ->
+  h265_encode e au = inl (Ok (pkts, e')) -> clean5 d ->
+  exists d', decode5_run d (map (stamp delta) pkts) = (repeat DMore (length pkts - 1) ++ [DOk au], d')
+             /\ clean5 d' /\ (1 <= length pkts)%nat.
+Proof. exact h265_roundtrip. Qed.
+Print Assumptions C23_h265_roundtrip.
+
+Theorem C23_h265_roundtrip_seq : forall aus e pkss e' d deltas,
+  4 <= e.(e_max) < 65536 ->
+  Forall (fun au => au <> [] /\ Forall nal5_ok au /\ blen au <= max_nalus5 /\ au_size au <= max_au_size5) aus ->
+  length deltas = length aus ->
+  h265_encode_run e aus = Some (pkss, e') -> clean5 d ->
+  dok_units (fst (decode5_run d (stamp_units deltas pkss))) = aus
+  /\ ~ In DErr (fst (decode5_run d (stamp_units deltas pkss)))
+  /\ clean5 (snd (decode5_run d (stamp_units deltas pkss))).
+Proof. exact h265_roundtrip_run. Qed.
+Print Assumptions C23_h265_roundtrip_seq.
+
+Theorem C23_h265_seq_consecutive : forall e au pkts e',
+  0 <= e.(e_seq) < 65536 -> h265_encode e au = inl (Ok (pkts, e')) ->
+  (forall i d, (i < length pkts)%nat -> p_seq (nth i pkts d) = (e.(e_seq) + Z.of_nat i) mod 65536)
+  /\ e'.(e_seq) = (e.(e_seq) + Z.of_nat (length pkts)) mod 65536
+  /\ (forall p, In p pkts -> p.(p_ssrc) = e.(e_ssrc) /\ p.(p_ts) = 0).
+Proof. exact h265_encode_seq. Qed.
+Print Assumptions C23_h265_seq_consecutive.
+
+Theorem C23_h265_seq_consecutive_run : forall e aus pkss e',
+  0 <= e.(e_seq) < 65536 -> h265_encode_run e aus = Some (pkss, e') ->
+  forall i d, (i < length (concat pkss))%nat ->
+    p_seq (nth i (concat pkss) d) = (e.(e_seq) + Z.of_nat i) mod 65536.
+Proof. exact h265_encode_run_seq. Qed.
+Print Assumptions C23_h265_seq_consecutive_run.
+
+Theorem C23_h265_glue_seq : forall max avail g pts inp decerr deliv g' out,
+  h265_glue_write max avail g pts inp decerr deliv = GOk g' out -> has_enc g' = true ->
+  exists e0 off0 e1, effective max avail g pts inp e0 off0 /\ g' = mkg (Some e1) off0
+    /\ seq_chain e0.(e_seq) out /\ Forall (fun p => p.(p_ssrc) = e0.(e_ssrc)) out
+    /\ e1.(e_seq) = adv e0.(e_seq) (length out) /\ e1.(e_max) = e0.(e_max) /\ e1.(e_ssrc) = e0.(e_ssrc).
+Proof. exact h265_glue_seq. Qed.
+Print Assumptions C23_h265_glue_seq.
+
+Theorem C23_h265_glue_size : forall max avail g pts inp decerr deliv g' out,
+  4 <= max -> enc_max_ok max g -> Forall (fun p => 0 <= p.(p_seq) < 65536) inp ->
+  h265_glue_write max avail g pts inp decerr deliv = GOk g' out -> has_enc g' = true ->
+  Forall (fun p => blen p.(p_payload) <= max) out /\ enc_max_ok max g'.
+Proof. exact h265_glue_size. Qed.
+Print Assumptions C23_h265_glue_size.
+
+Theorem C23_h265_glue_ts : forall max avail g pts inp decerr au g' out,
+  max <> 0 -> enc_max_ok max g ->
+  h265_glue_write max avail g pts inp decerr (Some au) = GOk g' out -> has_enc g' = true ->
+  Forall (fun p => p.(p_ts) = wrapu32 (g'.(g_off) + wrapu32 pts)) out
+  /\ (has_enc g = true -> g'.(g_off) = g.(g_off))
+  /\ (has_enc g = false -> exists pkt, first_oversized max inp = Some pkt
+                                       /\ g'.(g_off) = wrapu32 (pkt.(p_ts) - wrapu32 pts)
+                                       /\ (0 <= pkt.(p_ts) < two32 -> wrapu32 (g'.(g_off) + wrapu32 pts) = pkt.(p_ts))).
+Proof. exact h265_glue_ts. Qed.
+Print Assumptions C23_h265_glue_ts.
+
+Theorem C23_h265_glue_roundtrip : forall max avail g pts inp decerr au g' out d,
+  4 <= max < 65536 -> enc_max_ok max g ->
+  h265_glue_write max avail g pts inp decerr (Some au) = GOk g' out -> has_enc g' = true ->
+  au <> [] -> Forall nal5_ok au -> blen au <= max_nalus5 -> au_size au <= max_au_size5 -> clean5 d ->
+  exists d', decode5_run d out = (repeat DMore (length out - 1) ++ [DOk au], d') /\ clean5 d' /\ (1 <= length out)%nat.
+Proof. exact h265_glue_roundtrip. Qed.
+Print Assumptions C23_h265_glue_roundtrip.
+
+(* ---------------------------------------------------------------------------------------------------
+   Opus (rtpEncoderOpus over gortsplib rtpsimpleaudio): one RTP packet per Opus packet of the unit, carrying
+   it unchanged; Timestamp = sum of the durations (opus.PacketDuration2, 48 kHz) of the Opus packets before it.
+   RTP/Opus has no fragmentation: the size bound holds IF AND ONLY IF every Opus packet fits - an Opus packet
+   longer than the maximum goes out as it is (C23_opus_oversized_goes_out; finding, see design notes).
+   The decoder is stateless.
+   --------------------------------------------------------------------------------------------------- *)
+Theorem C23_opus_size : forall e frames pkts e',
+  opus_encode e frames = inl (Ok (pkts, e')) ->
+  (Forall (fun f => blen f <= e.(e_max)) frames <-> Forall (fun p => blen p.(p_payload) <= e.(e_max)) pkts).
+Proof. exact opus_encode_size. Qed.
+Print Assumptions C23_opus_size.
+
+Theorem C23_opus_oversized_goes_out :
+  exists e frames pkts e', opus_encode e frames = inl (Ok (pkts, e'))
+    /\ exists p, In p pkts /\ blen p.(p_payload) > e.(e_max).
+Proof. exact opus_oversized_goes_out. Qed.
+Print Assumptions C23_opus_oversized_goes_out.
+
+Theorem C23_opus_seq_consecutive : forall e frames pkts e',
+  opus_encode e frames = inl (Ok (pkts, e')) -> enc_post0 e pkts e' /\ length pkts = length frames.
+Proof. exact opus_encode_post. Qed.
+Print Assumptions C23_opus_seq_consecutive.
+
+Theorem C23_opus_ts : forall e frames pkts e',
+  opus_encode e frames = inl (Ok (pkts, e')) ->
+  map p_ts pkts = map wrapu32 (starts 0 (map opus_duration frames))
+  /\ Forall (fun p => p.(p_marker) = false) pkts.
+Proof. exact opus_encode_ts. Qed.
+Print Assumptions C23_opus_ts.
+
+Theorem C23_opus_roundtrip : forall e frames pkts e' delta,
+  Forall (fun f => f <> []) frames -> opus_encode e frames = inl (Ok (pkts, e')) ->
+  simple_run (map (stamp delta) pkts) = map (fun f => DOk [f]) frames.
+Proof. exact opus_roundtrip. Qed.
+Print Assumptions C23_opus_roundtrip.
+
+Theorem C23_opus_glue_seq : forall max avail g pts inp decerr deliv g' out,
+  opus_glue_write max avail g pts inp decerr deliv = GOk g' out -> has_enc g' = true ->
+  exists e0 off0 e1, effective max avail g pts inp e0 off0 /\ g' = mkg (Some e1) off0
+    /\ seq_chain e0.(e_seq) out /\ Forall (fun p => p.(p_ssrc) = e0.(e_ssrc)) out
+    /\ e1.(e_seq) = adv e0.(e_seq) (length out) /\ e1.(e_max) = e0.(e_max) /\ e1.(e_ssrc) = e0.(e_ssrc).
+Proof. exact opus_glue_seq. Qed.
+Print Assumptions C23_opus_glue_seq.
+
+Theorem C23_opus_glue_size : forall max avail g pts inp decerr deliv g' out,
+  max <> 0 -> enc_max_ok max g -> Forall (fun p => 0 <= p.(p_seq) < 65536) inp ->
+  opus_glue_write max avail g pts inp decerr deliv = GOk g' out -> has_enc g' = true ->
+  (forall frames, deliv = Some frames -> Forall (fun f => blen f <= max) frames) ->
+  Forall (fun p => blen p.(p_payload) <= max) out /\ enc_max_ok max g'.
+Proof. exact opus_glue_size. Qed.
+Print Assumptions C23_opus_glue_size.
+
+Theorem C23_opus_glue_ts : forall max avail g pts inp decerr frames g' out,
+  max <> 0 -> enc_max_ok max g ->
+  opus_glue_write max avail g pts inp decerr (Some frames) = GOk g' out -> has_enc g' = true ->
+  map p_ts out = map (fun s => wrapu32 (s + (g'.(g_off) + wrapu32 pts))) (starts 0 (map opus_duration frames))
+  /\ (has_enc g = true -> g'.(g_off) = g.(g_off))
+  /\ (has_enc g = false -> exists pkt, first_oversized max inp = Some pkt
+                                       /\ g'.(g_off) = wrapu32 (pkt.(p_ts) - wrapu32 pts)
+                                       /\ (0 <= pkt.(p_ts) < two32 -> wrapu32 (g'.(g_off) + wrapu32 pts) = pkt.(p_ts))).
+Proof. exact opus_glue_ts. Qed.
+Print Assumptions C23_opus_glue_ts.
+
+Theorem C23_opus_glue_roundtrip : forall max avail g pts inp decerr frames g' out,
+  max <> 0 -> enc_max_ok max g ->
+  opus_glue_write max avail g pts inp decerr (Some frames) = GOk g' out -> has_enc g' = true ->
+  frames <> [] -> Forall (fun f => f <> []) frames ->
+  simple_run out = map (fun f => DOk [f]) frames /\ (1 <= length out)%nat.
+Proof. exact opus_glue_roundtrip. Qed.
+Print Assumptions C23_opus_glue_roundtrip.
+
+(* ---------------------------------------------------------------------------------------------------
+   G.711 and LPCM (gortsplib rtplpcm): ss = sampleSize = BitDepth * ChannelCount / 8 (G.711: ChannelCount),
+   maxPayloadSize = (PayloadMaxSize / ss) * ss. Precondition (the encoder's own, enforced by newRTPEncoder
+   since fix 6728a85): 0 < ss <= PayloadMaxSize; outside it the encoder divides by zero
+   (C23_lpcm_sample_must_fit). Every packet but the last has maxPayloadSize bytes; whole samples stay whole;
+   packet i starts i * (PayloadMaxSize / ss) samples after the first. The decoder is stateless and returns
+   the payload: the unit is the concatenation (joined).
+   --------------------------------------------------------------------------------------------------- *)
+Theorem C23_lpcm_size : forall ss e samples pkts e',
+  0 < ss <= e.(e_max) -> lpcm_encode ss e samples = inl (Ok (pkts, e')) ->
+  Forall (fun p => blen p.(p_payload) <= e.(e_max)) pkts.
+Proof. exact lpcm_encode_size. Qed.
+Print Assumptions C23_lpcm_size.
+
+Theorem C23_lpcm_encode_total : forall ss e samples,
+  0 < ss <= e.(e_max) -> exists pkts e', lpcm_encode ss e samples = inl (Ok (pkts, e')).
+Proof. exact lpcm_encode_total. Qed.
+Print Assumptions C23_lpcm_encode_total.
+
+Theorem C23_lpcm_sample_must_fit : forall ss e samples,
+  e.(e_max) < ss -> 0 <= e.(e_max) -> lpcm_encode ss e samples = inl Panic.
+Proof. exact lpcm_sample_must_fit. Qed.
+Print Assumptions C23_lpcm_sample_must_fit.
+
+Theorem C23_lpcm_aligned : forall ss e samples pkts e',
+  0 < ss <= e.(e_max) -> lpcm_encode ss e samples = inl (Ok (pkts, e')) ->
+  (blen samples) mod ss = 0 -> Forall (fun p => (blen p.(p_payload)) mod ss = 0) pkts.
+Proof. exact lpcm_encode_aligned. Qed.
+Print Assumptions C23_lpcm_aligned.
+
+Theorem C23_lpcm_ts : forall ss e samples pkts e',
+  0 < ss <= e.(e_max) -> lpcm_encode ss e samples = inl (Ok (pkts, e')) ->
+  (forall i d, (i < length pkts)%nat -> p_ts (nth i pkts d) = wrapu32 (Z.of_nat i * (e.(e_max) / ss)))
+  /\ Forall (fun p => p.(p_marker) = false) pkts.
+Proof. exact lpcm_encode_ts. Qed.
+Print Assumptions C23_lpcm_ts.
+
+Theorem C23_lpcm_seq_consecutive : forall ss e samples pkts e',
+  0 < ss <= e.(e_max) -> lpcm_encode ss e samples = inl (Ok (pkts, e')) -> enc_post0 e pkts e'.
+Proof. exact lpcm_encode_post. Qed.
+Print Assumptions C23_lpcm_seq_consecutive.
+
+Theorem C23_lpcm_roundtrip : forall ss e samples pkts e' delta,
+  0 < ss <= e.(e_max) -> lpcm_encode ss e samples = inl (Ok (pkts, e')) ->
+  joined (simple_run (map (stamp delta) pkts)) = Some samples /\ (samples <> [] -> (1 <= length pkts)%nat).
+Proof. exact lpcm_roundtrip. Qed.
+Print Assumptions C23_lpcm_roundtrip.
+
+Theorem C23_lpcm_glue_seq : forall ss max avail g pts inp decerr deliv g' out,
+  0 < ss ->
+  lpcm_glue_write ss max avail g pts inp decerr deliv = GOk g' out -> has_enc g' = true ->
+  exists e0 off0 e1, effective max avail g pts inp e0 off0 /\ g' = mkg (Some e1) off0
+    /\ seq_chain e0.(e_seq) out /\ Forall (fun p => p.(p_ssrc) = e0.(e_ssrc)) out
+    /\ e1.(e_seq) = adv e0.(e_seq) (length out) /\ e1.(e_max) = e0.(e_max) /\ e1.(e_ssrc) = e0.(e_ssrc).
+Proof. exact lpcm_glue_seq. Qed.
+Print Assumptions C23_lpcm_glue_seq.
+
+Theorem C23_lpcm_glue_size : forall ss max avail g pts inp decerr deliv g' out,
+  0 < ss <= max -> enc_max_ok max g -> Forall (fun p => 0 <= p.(p_seq) < 65536) inp ->
+  lpcm_glue_write ss max avail g pts inp decerr deliv = GOk g' out -> has_enc g' = true ->
+  Forall (fun p => blen p.(p_payload) <= max) out /\ enc_max_ok max g'.
+Proof. exact lpcm_glue_size. Qed.
+Print Assumptions C23_lpcm_glue_size.
+
+Theorem C23_lpcm_glue_ts : forall ss max avail g pts inp decerr samples g' out,
+  0 < ss <= max -> enc_max_ok max g ->
+  lpcm_glue_write ss max avail g pts inp decerr (Some samples) = GOk g' out -> has_enc g' = true ->
+  (forall i d, (i < length out)%nat ->
+     p_ts (nth i out d) = wrapu32 (Z.of_nat i * (max / ss) + (g'.(g_off) + wrapu32 pts)))
+  /\ (has_enc g = true -> g'.(g_off) = g.(g_off))
+  /\ (has_enc g = false -> exists pkt, first_oversized max inp = Some pkt
+                                       /\ g'.(g_off) = wrapu32 (pkt.(p_ts) - wrapu32 pts)
+                                       /\ (0 <= pkt.(p_ts) < two32 -> wrapu32 (g'.(g_off) + wrapu32 pts) = pkt.(p_ts))).
+Proof. exact lpcm_glue_ts. Qed.
+Print Assumptions C23_lpcm_glue_ts.
+
+Theorem C23_lpcm_glue_roundtrip : forall ss max avail g pts inp decerr samples g' out,
+  0 < ss <= max -> enc_max_ok max g ->
+  lpcm_glue_write ss max avail g pts inp decerr (Some samples) = GOk g' out -> has_enc g' = true ->
+  samples <> [] ->
+  joined (simple_run out) = Some samples /\ (1 <= length out)%nat.
+Proof. exact lpcm_glue_roundtrip. Qed.
+Print Assumptions C23_lpcm_glue_roundtrip.
+
+(* ---- non-vacuity of the second part ---- *)
+
+(* H.265, max = 12: VPS+SPS in one aggregation packet (2 + 2+3 + 2+3 = 12), a 14-byte slice in two
+   fragmentation units (forbidden_zero_bit set on purpose: it survives), a last unit alone with the marker;
+   sequence numbers wrap; the decoder gives the access unit back *)
+Example C23_example_h265 :
+  let e := mkenc 12 77 65535 in
+  let au := [[64; 1; 12]; [66; 1; 13]; [166; 1; 1; 2; 3; 4; 5; 6; 7; 8; 9; 10; 11; 12]; [78; 1; 9]] in
+  Forall nal5_ok au /\
+  h265_encode e au =
+  inl (Ok ([ mkpkt 65535 0 false 77 [96; 1; 0; 3; 64; 1; 12; 0; 3; 66; 1; 13];
+             mkpkt 0 0 false 77 [226; 1; 147; 1; 2; 3; 4; 5; 6; 7; 8; 9];
+             mkpkt 1 0 false 77 [226; 1; 83; 10; 11; 12];
+             mkpkt 2 0 true 77 [78; 1; 9] ], mkenc 12 77 3))
+  /\ fst (decode5_run dec5_init (map (stamp 999)
+            [ mkpkt 65535 0 false 77 [96; 1; 0; 3; 64; 1; 12; 0; 3; 66; 1; 13];
+              mkpkt 0 0 false 77 [226; 1; 147; 1; 2; 3; 4; 5; 6; 7; 8; 9];
+              mkpkt 1 0 false 77 [226; 1; 83; 10; 11; 12];
+              mkpkt 2 0 true 77 [78; 1; 9] ]))
+     = [DMore; DMore; DMore; DOk au].
+Proof.
+  cbv zeta. split; [|split; vm_compute; reflexivity].
+  repeat constructor; try (cbn; lia); try (intros [H1 H2]; vm_compute in H1, H2; lia).
+Qed.
+
+(* Opus: three packets of 20 ms, 2 x 10 ms (code 1) and 3 x 20 ms (code 3, count 3): timestamps 0, 960, 1920 *)
+Example C23_example_opus :
+  opus_encode (mkenc 100 5 65535) [[8 * 19; 1; 2]; [8 * 18 + 1; 7]; [8 * 19 + 3; 3; 9]]
+  = inl (Ok ([mkpkt 65535 0 false 5 [152; 1; 2]; mkpkt 0 960 false 5 [145; 7]; mkpkt 1 1920 false 5 [155; 3; 9]],
+             mkenc 100 5 2)).
+Proof. vm_compute. reflexivity. Qed.
+
+(* LPCM 16 bit stereo (ss = 4), max = 10: maxPayloadSize = 8, 20 bytes -> 8 + 8 + 4, timestamps 0, 2, 4;
+   through the glue with offset 100 and PTS 1000 *)
+Example C23_example_lpcm :
+  lpcm_encode 4 (mkenc 10 5 7) [1;2;3;4;5;6;7;8;9;10;11;12;13;14;15;16;17;18;19;20]
+  = inl (Ok ([mkpkt 7 0 false 5 [1;2;3;4;5;6;7;8]; mkpkt 8 2 false 5 [9;10;11;12;13;14;15;16];
+              mkpkt 9 4 false 5 [17;18;19;20]], mkenc 10 5 10))
+  /\ match lpcm_glue_write 4 10 true (mkg (Some (mkenc 10 5 7)) 100) 1000 [] false
+             (Some [1;2;3;4;5;6;7;8;9;10;11;12;13;14;15;16;17;18;19;20]) with
+     | GOk g1 out => map p_ts out = [1100; 1102; 1104] /\ map p_seq out = [7; 8; 9]
+                     /\ joined (simple_run out) = Some [1;2;3;4;5;6;7;8;9;10;11;12;13;14;15;16;17;18;19;20]
      | _ => False
      end.
 Proof. vm_compute. repeat split; reflexivity. Qed.
